@@ -48,6 +48,23 @@ def cases_large(draw, name):
     return case
 
 
+@st.composite
+def big_number_cases(draw):
+    name = draw(st.sampled_from(["nlargest", "nsmallest", "sum", "sorted", "max", "min"]))
+    n_items = draw(st.sampled_from([258, 300, 400]))
+    items = [["I", (i * 7) % 5, i] for i in range(n_items)] if name != "sum" else [["i", 1]] * n_items
+    case = {"tool": name, "profile": "item", "fns": {}, "params": {}, "plan": [], "close": True,
+            "srcs": [{"items": items, "fl": draw(st.sampled_from(["agen", "list", "iter"])), "susp": 0,
+                      "csusp": False, "fault": None}]}
+    if name in ("nlargest", "nsmallest"):
+        case["params"]["n"] = draw(st.sampled_from([256, 257, 258, 299]))
+    if name == "sorted":
+        case["params"]["reverse"] = draw(st.booleans())
+    if name == "sum":
+        case["params"]["v"] = {"start": ["i", draw(st.sampled_from([0, 256, 257, 2 ** 62]))]}
+    return case
+
+
 def check(case):
     tool = case["tool"]
     bs = run_sync(case)
@@ -130,6 +147,8 @@ def shards(tier):
     large = [Shard(f"large-{name}", check, strategy=cases_large(name), n=400, nontrivial=nontrivial,
                    classify=classify, thorough_mult=15)
              for name in ("nlargest", "nsmallest", "sorted", "min", "max", "reduce", "sum")]
+    large += [Shard(f"big-numbers-{i}", check, strategy=big_number_cases(), n=15, nontrivial=lambda c: True,
+                    thorough_mult=8) for i in range(2)]
     return large + [
         Shard(name, check, strategy=cases(name, 8 if tier == "quick" else 12), n=1200,
               nontrivial=nontrivial, classify=classify, thorough_mult=25)
